@@ -273,6 +273,10 @@ func (f *Frame) execLoopInv(sh *loopShape, spec *LoopSpec, st *State) []Outcome 
 		e := f.specEnvAt(s, sh.body.Pos())
 		return e
 	}
+	if f.loopEntries == nil {
+		f.loopEntries = map[int]*State{}
+	}
+	f.loopEntries[sh.ord] = st.clone()
 	// 1. entry
 	for i, inv := range spec.Invariants {
 		goal := envFor(st).evalBool(inv.E)
